@@ -35,8 +35,8 @@ FU = {"mT": 1e-3, "uT": 1e-6, "T": 1.0}
 
 def bound(tier):
     return {
-        "quick": "bs2d: all sites of one 50-site mesh x 2 directions x 8 point shapes x 9 unit pairs x 2 forms; sol: 2 devices; loop: 108 positions; convert: 24 cases",
-        "thorough": "bs2d: 3 meshes; sol: 4 devices x all option combinations; loop: 324 positions; convert: 48 cases",
+        "quick": "bs2d: all sites of one 50-site mesh x 2 directions x 8 point shapes x 9 unit pairs x 2 forms; sol: 2 devices; loop: 108 positions; convert: 24 cases; maps of 1000 / 33331 / 80003 positions, every row",
+        "thorough": "bs2d: 3 meshes; sol: 4 devices x all option combinations; loop: 324 positions; convert: 48 cases; maps of up to 262147 positions, every row",
     }[tier]
 
 
@@ -66,6 +66,9 @@ def cases(tier, seed):
     for n in (1, 2, 7):
         out.append(dict(fam="wire", nseg=n))
     out.append(dict(fam="tdep_applied"))
+    # large evaluation maps: every row of one big call against a direct sum and against the same rows evaluated in small calls
+    for d, npos in (("tinyT", 1000), ("tinyT", 33331), ("G5", 80003)) if tier == "quick" else (("tinyT", 1000), ("tinyT", 33331), ("tinyT", 131075), ("G5", 80003), ("G5", 262147), ("G1", 50021)):
+        out.append(dict(fam="bigmap", dev=d, npos=npos))
     return out
 
 
@@ -579,5 +582,97 @@ def run_tdep_applied(case):
     return res
 
 
+def _direct_f64(P_si, src_si, K_si, a_si, chunk=4096):
+    """float64 direct sums (B (N,3) in tesla, A (N,2) in T m), evaluated in row chunks by the harness"""
+    N = len(P_si)
+    Bout = np.zeros((N, 3))
+    Aout = np.zeros((N, 2))
+    pref = MU0 / (4 * np.pi) * a_si
+    for i0 in range(0, N, chunk):
+        d = P_si[i0:i0 + chunk, None, :] - src_si[None, :, :]
+        r2 = (d**2).sum(axis=2)
+        r = np.sqrt(r2)
+        w3 = pref / (r2 * r)
+        Bout[i0:i0 + chunk, 0] = (w3 * K_si[:, 1] * d[:, :, 2]).sum(axis=1)
+        Bout[i0:i0 + chunk, 1] = (-w3 * K_si[:, 0] * d[:, :, 2]).sum(axis=1)
+        Bout[i0:i0 + chunk, 2] = (w3 * (K_si[:, 0] * d[:, :, 1] - K_si[:, 1] * d[:, :, 0])).sum(axis=1)
+        w1 = pref / r
+        Aout[i0:i0 + chunk, 0] = (w1 * K_si[:, 0]).sum(axis=1)
+        Aout[i0:i0 + chunk, 1] = (w1 * K_si[:, 1]).sum(axis=1)
+    return Bout, Aout
+
+
+def run_bigmap(case):
+    """One call with many evaluation points (a field map): every row must be the direct sum for that row, whatever the size of the call."""
+    res = CaseResult()
+    res.key = case_key(case)
+    fu = "mT"
+    sol, B = _solution(case["dev"], fu)
+    dev = sol.device
+    lu, cu = dev.length_units, sol.current_units
+    xi = dev.layer.coherence_length
+    pos = dev.points
+    n = len(pos)
+    z0 = dev.layer.z0
+    src_si = np.column_stack([pos, np.full(n, z0)]) * LEN[lu]
+    a_si = dev.mesh.areas * xi**2 * LEN[lu] ** 2
+    Junit = dev.ureg(f"{cu} / {lu}")
+    rng = np.random.default_rng(5)
+    Ks, Kn = rng.normal(size=(n, 2)), rng.normal(size=(n, 2))
+    sol.supercurrent_density = Ks * Junit
+    sol.normal_current_density = Kn * Junit
+    Ks_si, Kn_si = Ks * CURR[cu] / LEN[lu], Kn * CURR[cu] / LEN[lu]
+    N = case["npos"]
+    # a raster over and around the film, irrational spacing, heights varying along the map (never in the film plane)
+    k = np.arange(N)
+    span = 1.5 * float(np.abs(pos).max())
+    P = np.column_stack([span * np.sin(0.7548776662 * k), span * np.cos(0.5698402910 * k), z0 + 0.35 + 1.7 * (0.5 + 0.5 * np.sin(0.1234567 * k))])
+    wantB_s, wantA_s = _direct_f64(P * LEN[lu], src_si, Ks_si, a_si)
+    wantB_n, wantA_n = _direct_f64(P * LEN[lu], src_si, Kn_si, a_si)
+    wantB_s, wantB_n = wantB_s / FU[fu], wantB_n / FU[fu]
+    wantA_s, wantA_n = wantA_s / (FU[fu] * LEN[lu]), wantA_n / (FU[fu] * LEN[lu])
+    sB = max(np.abs(wantB_s).max(), np.abs(wantB_n).max())
+    sA = max(np.abs(wantA_s).max(), np.abs(wantA_n).max())
+    res.count("map_rows", N)
+    for fname, kw in (("m3", dict(positions=P)), ("m2+array", dict(positions=P[:, :2], zs=P[:, 2]))):
+        parts = sol.field_at_position(vector=True, units=fu, with_units=False, return_sum=False, **kw)
+        zonly = sol.field_at_position(vector=False, units=fu, with_units=False, return_sum=True, **kw)
+        Ap = sol.vector_potential_at_position(units=f"{fu} * {lu}", with_units=False, return_sum=False, **kw)
+        Atot = sol.vector_potential_at_position(units=f"{fu} * {lu}", with_units=False, return_sum=True, **kw)
+        res.count("comparisons", 4)
+        got = {"field.supercurrent": (np.asarray(parts.supercurrent), wantB_s, sB), "field.normal": (np.asarray(parts.normal_current), wantB_n, sB),
+               "field.z": (np.asarray(zonly), (wantB_s + wantB_n)[:, 2], sB),
+               "potential.supercurrent": (np.asarray(Ap["supercurrent_density"])[:, :2], wantA_s, sA), "potential.normal": (np.asarray(Ap["normal_current_density"])[:, :2], wantA_n, sA),
+               "potential.sum": (np.asarray(Atot)[:, :2] - np.asarray(Ap["applied"])[:, :2], wantA_s + wantA_n, sA)}
+        for qn, (g, w, sc) in got.items():
+            if g.shape != w.shape:
+                res.violate("map-has-wrong-shape", quantity=qn, form=fname, detail={"got": list(g.shape), "want": list(w.shape)})
+                continue
+            err = np.abs(g - w)
+            if err.ndim > 1:
+                err = err.max(axis=1)
+            bad = np.nonzero(err > TOLERANCES["si"] * sc)[0]
+            res.residual("map_si", float(err.max() / sc))
+            if len(bad):
+                res.violate("rows-of-a-large-map-differ-from-the-direct-sum", quantity=qn, form=fname, large=bool(N * n > 2**20),
+                            detail={"npos": N, "sites": n, "rows": int(len(bad)), "first": int(bad[0]), "last": int(bad[-1]), "rel": float(err.max() / sc)})
+        # the same rows asked for in a small call
+        idx = np.unique(np.concatenate([np.arange(0, 3), np.arange(N - 3, N), np.arange(N // 2, N // 2 + 2), np.arange(0, N, max(1, N // 97))]))
+        kw2 = {a: (v[idx] if isinstance(v, np.ndarray) else v) for a, v in kw.items()}
+        small = sol.vector_potential_at_position(units=f"{fu} * {lu}", with_units=False, return_sum=False, **kw2)
+        smallB = sol.field_at_position(vector=True, units=fu, with_units=False, return_sum=True, **kw2)
+        bigB = np.asarray(parts.supercurrent) + np.asarray(parts.normal_current)
+        for qn, a, b, sc in (("potential.supercurrent", np.asarray(Ap["supercurrent_density"])[idx], np.asarray(small["supercurrent_density"]), sA),
+                             ("potential.normal", np.asarray(Ap["normal_current_density"])[idx], np.asarray(small["normal_current_density"]), sA),
+                             ("field", bigB[idx], np.asarray(smallB), sB)):
+            res.count("comparisons")
+            if a.shape != b.shape or np.abs(a - b).max() > 1e-11 * sc:
+                res.violate("row-of-a-large-map-differs-from-the-same-point-asked-alone", quantity=qn, form=fname, detail={"npos": N, "sites": n})
+    res.count("basis_currents", 1)
+    res.nontrivial = True
+    res.outcome = "bigmap"
+    return res
+
+
 def run_case(case):
-    return {"bs2d": run_bs2d, "sol": run_sol, "loop": run_loop, "convert": run_convert, "wire": run_wire, "tdep_applied": run_tdep_applied}[case["fam"]](case)
+    return {"bs2d": run_bs2d, "sol": run_sol, "loop": run_loop, "convert": run_convert, "wire": run_wire, "tdep_applied": run_tdep_applied, "bigmap": run_bigmap}[case["fam"]](case)
